@@ -19,8 +19,9 @@ from concurrent.futures import ThreadPoolExecutor
 
 from .common import HERE, REPO, digest
 
-OUT = os.path.join(HERE, "out")
-EVID = os.path.join(HERE, "evidence")
+# (tools/mutscan.py runs many checks side by side against mutated scratch copies: it redirects both directories)
+OUT = os.environ.get("VERIF_OUT_DIR") or os.path.join(HERE, "out")
+EVID = os.environ.get("VERIF_EVID_DIR") or os.path.join(HERE, "evidence")
 KNOWN = os.path.join(HERE, "known_findings.json")
 
 
